@@ -1338,7 +1338,7 @@ PROPS = {
                     "E3: k in {1,2,3,10,64,100}, n to 10^5 with pseudo-random, all-zero, all-one and alternating raw RNG words; non-trivial = tagged (replaces / keeps / switch accepts / first gap skips / gap accepts / gap skips)",
             "assumptions": ["TLC and the TLA+ P-spec P_Reservoir judge every executed call", "rand 0.8 sampling algorithms (self-tested at start-up) for scripted draws"]},
     "C05": {"run": lambda ctx: run_rs(ctx, True), "level": "model_checking",
-            "level_text_extra": "exact for n <= 4k+1, k in {1,2} (k = 3 in the thorough tier); gap phase bound by mechanism",
+            "level_text_extra": "exact for n <= 4k+1, k in {1,2} (k = 3 in the thorough tier) when the code consumes its generator as the mechanism spec says; gap phase bound by mechanism (deterministic gap clause) and, independently of the call pattern, by a measured 6-sigma clause over seeded runs",
             "rule": "exact inclusion probabilities by path counting: on the spec (MC_ReservoirDist) and on the table of draws recorded from the real sampler (P_ReservoirDist) for every n <= 4k+1, k in {1,2} (and k = 3 in the thorough tier, with gcd-normalised weights): "
                     "the table is explored breadth first over the real sampler's OWN states (every state reached, every plain-phase outcome j, every one of the 4k+1 equiprobable cells of the unit draw at the phase switch), so it does not depend on which slot or item the code picks; "
                     "if the code asks for randomness the script does not provide, the table stops there (drift, no verdict) and the measured clause decides: inclusion counts over 3000 seeded ChaCha runs for 17 (33 thorough) (k, n) pairs, 6 sigma (P_ReservoirFreq; gap regime with the documented 1/k-order bias allowed); "
